@@ -20,6 +20,7 @@ type Engine struct {
 	declOf   map[string]*ast.FuncDecl
 	declPkg  map[string]*packages.Package
 	funcObj  map[string]*types.Func
+	captured map[string][]*ast.Ident // closure units: one use of each variable the function literal captures
 	repo     string
 	specsDir string
 	verbose  bool
@@ -348,6 +349,11 @@ func (e *Engine) verify(key string, c *Contract) *Unit {
 				i++
 			}
 		}
+	}
+	// closure unit: the variables the function literal captures are inputs (arbitrary values of their types, subject to
+	// the closure contract's requires) - by the time the literal runs the enclosing function may have moved on
+	for _, id := range e.captured[key] {
+		bindParam(id, p.TypesInfo.ObjectOf(id).Type(), -1)
 	}
 	fr := &frame{sig: u.sig, ftype: fd.Type}
 	if fd.Type.Results != nil {
@@ -729,4 +735,62 @@ func (e *Engine) callSiteUnit(key, need string) *Unit {
 		u.note("assumptions", "no call site of "+u.name+" found in the loaded packages")
 	}
 	return u
+}
+
+
+// prepareClosure registers the k-th function literal of the function `parent` as a verification unit of its own
+// under the key parent$k (ordinals as in `closure k` clauses: source order of all function literals in the body).
+func (e *Engine) prepareClosure(parent string, k int) (string, error) {
+	key := fmt.Sprintf("%s$%d", parent, k)
+	if e.declOf[key] != nil {
+		return key, nil
+	}
+	fd := e.declOf[parent]
+	p := e.declPkg[parent]
+	if fd == nil || fd.Body == nil {
+		return key, fmt.Errorf("function %s not found", parent)
+	}
+	var lit *ast.FuncLit
+	n := 0
+	ast.Inspect(fd.Body, func(x ast.Node) bool {
+		if l, ok := x.(*ast.FuncLit); ok {
+			n++
+			if n == k {
+				lit = l
+			}
+		}
+		return true
+	})
+	if lit == nil {
+		return key, fmt.Errorf("%s has %d function literals, contract names closure %d", parent, n, k)
+	}
+	sig, _ := p.TypesInfo.TypeOf(lit).(*types.Signature)
+	if sig == nil {
+		return key, fmt.Errorf("closure %d of %s: no signature", k, parent)
+	}
+	name := fmt.Sprintf("%s$%d", fd.Name.Name, k)
+	synth := &ast.FuncDecl{Name: &ast.Ident{Name: name, NamePos: lit.Pos()}, Type: lit.Type, Body: lit.Body}
+	e.declOf[key] = synth
+	e.declPkg[key] = p
+	e.funcObj[key] = types.NewFunc(lit.Pos(), p.Types, name, sig)
+	if e.captured == nil {
+		e.captured = map[string][]*ast.Ident{}
+	}
+	seen := map[types.Object]bool{}
+	ast.Inspect(lit.Body, func(x ast.Node) bool {
+		id, ok := x.(*ast.Ident)
+		if !ok {
+			return true
+		}
+		o, ok := p.TypesInfo.Uses[id].(*types.Var)
+		if !ok || o.IsField() || seen[o] {
+			return true
+		}
+		if o.Pos() >= fd.Pos() && o.Pos() < fd.End() && !(o.Pos() >= lit.Pos() && o.Pos() < lit.End()) {
+			seen[o] = true
+			e.captured[key] = append(e.captured[key], id)
+		}
+		return true
+	})
+	return key, nil
 }
